@@ -479,7 +479,11 @@ PROPS['C06'] = {
             '_txn_undo_write proved to refuse (UndoError, nothing staged, record loop never reached) every transaction '
             'whose status is not the undoable one - packed, undone, checkpoint; UndoSearch._readnext (undoLog/undoInfo) '
             'proved to walk to the transaction that ended at its position, to STOP the search at a packed transaction, to '
-            'skip one whose status is not blank, and to describe the transaction by an id derived from its own tid.',
+            'skip one whose status is not blank, and to describe the transaction by an id derived from its own tid; '
+            'FileStorage.undo proved to refuse (nothing staged) in read-only mode and for a foreign transaction, to look the '
+            'decoded id up with the pack boundary as limit, to undo the records at the position found and to merge the '
+            'staged positions into the transaction index; DB.TransactionalUndo proved to undo every tid given, in order and '
+            'once, inside its own storage transaction, and to release its storage instance on every exit of finish/abort.',
     'note': 'FileStorage.undo/_txn_undo/_txn_undo_write (transaction walk, writing the records, blob copies), '
             'DB.undo/TransactionalUndo resource manager, undoLog/undoInfo and MappingStorage are covered by the '
             'bounded harness only. Assumes A-RESOLVER for the class merge.',
